@@ -1034,8 +1034,8 @@ def table_references(ctx):
     """an aggregate over a structured table reference uses the cells of that table column, wherever the formula is:
     on the table's sheet and on another sheet that has numbers of its own at the same coordinates; each must equal
     the same aggregate over the written range"""
-    import logging
     import warnings
+    from vp import core
     from openpyxl import Workbook
     from openpyxl.worksheet.table import Table
     from pycel import ExcelCompiler
@@ -1072,7 +1072,7 @@ def table_references(ctx):
         sheet[f'{col_t}{row}'] = '=SUMPRODUCT(Table1[amount],Table1[weight])'
         sheet[f'{col_r}{row}'] = f'=SUMPRODUCT(Data!C4:C{last},Data!D4:D{last})'
         pairs.append(('SUMPRODUCT(Table1[amount],Table1[weight])', sheet.title, f'{col_t}{row}', f'{col_r}{row}'))
-    logging.disable(logging.CRITICAL)
+    core.silence()
     path = os.path.join(ctx.tmpdir, 'tables.xlsx')
     book.save(path)
     with warnings.catch_warnings():
